@@ -67,6 +67,7 @@ type Contract struct {
 	Lemmas   []*Clause
 	Params   []string // explicit parameter names (for trusted contracts whose export data lacks names)
 	Results  []string
+	LitRequires map[int][]*Clause // assumptions on the parameters of the N-th function literal
 }
 
 // SinkSpec: coarse-mode call-site rule (requires on calls matching a pattern).
@@ -92,9 +93,19 @@ type SpecFunc struct {
 	Cite   string
 }
 
+// PredDef: a contract-level predicate macro (expanded at use, arguments are values).
+type PredDef struct {
+	Name   string
+	Params []string
+	Body   ast.Expr
+	File   string
+	Line   int
+}
+
 type ContractSet struct {
 	Funcs map[string]*Contract
 	Specs map[string]*SpecFunc
+	Preds map[string]*PredDef
 	Ghost map[string]*GhostDecl // "TypeKey.name"
 	Files []string
 }
@@ -298,7 +309,7 @@ func (cs *ContractSet) loadContractFile(path, pkgPath string) error {
 	}
 	keywords := map[string]bool{"props": true, "theory": true, "opt": true, "requires": true, "ensures": true,
 		"modifies": true, "loop": true, "let": true, "kf": true, "trusted": true, "pure": true, "reveal": true,
-		"separated": true, "sink": true, "lemma": true, "params": true, "results": true}
+		"separated": true, "sink": true, "lemma": true, "params": true, "results": true, "lit": true}
 	for _, rl := range lines {
 		t := rl.text
 		if t == "" {
@@ -360,7 +371,7 @@ func (cs *ContractSet) loadContractFile(path, pkgPath string) error {
 			}
 			cur = nil
 			continue
-		case "spec", "opaque":
+		case "spec", "opaque", "pred":
 			if err := flush(); err != nil {
 				return err
 			}
@@ -394,7 +405,15 @@ func (cs *ContractSet) loadContractFile(path, pkgPath string) error {
 			if cur == nil {
 				return fmt.Errorf("%s:%d: %q outside a func block", path, rl.line, word)
 			}
-			if word == "loop" {
+			if word == "lit" {
+				// lit N requires expr : assumption on the parameters of the N-th function literal
+				fs := strings.SplitN(rest, " ", 3)
+				num, err := strconv.Atoi(fs[0])
+				if len(fs) < 3 || err != nil || fs[1] != "requires" {
+					return fmt.Errorf("%s:%d: lit wants `N requires expr`", path, rl.line)
+				}
+				p = &pend{kind: "lit.requires", text: strings.TrimSpace(fs[2]), line: rl.line, loop: num}
+			} else if word == "loop" {
 				fs := strings.SplitN(rest, " ", 3)
 				if len(fs) < 3 {
 					return fmt.Errorf("%s:%d: loop wants `N kind expr`", path, rl.line)
@@ -464,6 +483,30 @@ var specHeadRe = regexp.MustCompile(`^([A-Za-z_][A-Za-z0-9_]*)\(([^)]*)\)\s*([A-
 
 func (cs *ContractSet) addClause(cur *Contract, kind string, loop int, text, file string, line int) error {
 	switch kind {
+	case "pred":
+		// pred name(a, b) = expr : a contract-level macro over values
+		i := strings.Index(text, "=")
+		op := strings.Index(text, "(")
+		cp := strings.Index(text, ")")
+		if i < 0 || op < 0 || cp < op || cp > i {
+			return fmt.Errorf("%s:%d: pred wants name(params) = expr", file, line)
+		}
+		pd := &PredDef{Name: strings.TrimSpace(text[:op]), File: file, Line: line}
+		for _, a := range strings.Split(text[op+1:cp], ",") {
+			if a = strings.TrimSpace(a); a != "" {
+				pd.Params = append(pd.Params, a)
+			}
+		}
+		e, err := parseContractExpr(strings.TrimSpace(text[i+1:]))
+		if err != nil {
+			return fmt.Errorf("%s:%d: %v", file, line, err)
+		}
+		pd.Body = e
+		if cs.Preds == nil {
+			cs.Preds = map[string]*PredDef{}
+		}
+		cs.Preds[pd.Name] = pd
+		return nil
 	case "spec", "opaque":
 		m := specHeadRe.FindStringSubmatch(text)
 		if m == nil {
@@ -592,6 +635,15 @@ func (cs *ContractSet) addClause(cur *Contract, kind string, loop int, text, fil
 			c.Label = fmt.Sprintf("i%d", len(ls.Invariants)+1)
 		}
 		ls.Invariants = append(ls.Invariants, c)
+	case "lit.requires":
+		c, err := cs.mkClause(text, file, line)
+		if err != nil {
+			return err
+		}
+		if cur.LitRequires == nil {
+			cur.LitRequires = map[int][]*Clause{}
+		}
+		cur.LitRequires[loop] = append(cur.LitRequires[loop], c)
 	case "loop.step":
 		c, err := cs.mkClause(text, file, line)
 		if err != nil {
